@@ -154,8 +154,12 @@ class CallGraph:
         t = n.get("type", "")
         if "(lambda at" in t or t.startswith("std::function<") or "std::function<" in t[:40]:
             return True
-        if n["k"] == "ref" and n.get("dk") == "func" and False:
+        if n["k"] == "ref" and n.get("dk") == "func":
             return True
+        if n["k"] == "un" and n["op"] == "&":
+            m = f.nodes[f.strip(n["sub"])]
+            if m["k"] == "ref" and m.get("dk") == "func":
+                return True       # &Class::method / &function
         if n["k"] in ("construct", "cast", "other"):
             for x in f.walk(a):
                 if f.nodes[x]["k"] == "lambda":
